@@ -736,7 +736,15 @@ func (x *c13) finish() *core.Violation {
 	inc := x.cur
 	r.Logf("final phase: shutdown of incarnation %d", inc.n)
 	closed := make(chan struct{})
-	go func() { inc.svc.Close(); close(closed) }()
+	if r.Bool(35, "final.shutdown-by-context") {
+		// the way the provider process shuts down: the context given to NewService is cancelled
+		r.Count("probe:shutdown-by-context-cancel")
+		r.Logf("final phase: the service context is cancelled")
+		inc.cancel()
+		go func() { <-inc.svc.Done(); close(closed) }()
+	} else {
+		go func() { inc.svc.Close(); close(closed) }()
+	}
 	budget := 400
 	idle := 0
 	for i := 0; i < budget; i++ {
@@ -813,7 +821,11 @@ func (x *c13) checkObligations() *core.Violation {
 				case c.Key == "Query.Bid "+k && c.OK:
 					placed = append(placed, c) // bid found at catch-up
 				case c.Key == "Tx.CloseBid "+k:
-					closes = append(closes, c)
+					// submitted = handed to the transaction client while it still takes requests; a call
+					// abandoned because its own context was already cancelled never reached the broadcaster
+					if !errors.Is(c.Err, context.Canceled) && !errors.Is(c.Err, context.DeadlineExceeded) {
+						closes = append(closes, c)
+					}
 				}
 			}
 			for _, rc := range reserves {
